@@ -505,3 +505,23 @@ Definition apply_registered (registered : list (pyval * pyval)) (use_config : py
 Definition init_config (orc : Z -> pyval -> outcome pyval) (s : schema) (registered : list (pyval * pyval))
            (config : option pyval) (kwargs : list (pyval * pyval)) : outcome pyval :=
   validate_config orc s (apply_registered registered (select_config config kwargs)).
+
+(* ------------------------------------------------------------------------------------------------ *)
+(* vocabulary used by the regenerated Gen/Schemas.v                                                  *)
+(* ------------------------------------------------------------------------------------------------ *)
+Definition pytype_eqb (a b : pytype) : bool :=
+  match a, b with
+  | TBool, TBool | TInt, TInt | TFloat, TFloat | TStr, TStr | TNumber, TNumber | TList, TList
+  | TTuple, TTuple | TDict, TDict | TObject, TObject => true
+  | TClass x, TClass y => Z.eqb x y
+  | _, _ => false
+  end.
+
+Definition no_orc : Z -> pyval -> outcome pyval := fun _ _ => Raise EOther.
+
+(* SomeSamplingSet() used as a default value: the object its constructor builds from the empty config *)
+Definition default_obj (tags : list Z) (s : schema) (p : post) : pyval :=
+  match validate no_orc s (PDict []) with
+  | Ret c => match apply_post p c with Ret c' => PObj tags c' | Raise _ => PNone end
+  | Raise _ => PNone
+  end.
